@@ -42,6 +42,15 @@ static double T_d(int i) { M(i); return 0.5; }                      static doubl
 static double T_dn(int i) { M(i); return vzero / vzero; }           static double F_dn(int i) { M(i); return 0.0; }
 static long double T_x(int i) { M(i); return 0.5L; }                static long double F_x(int i) { M(i); return -0.0L; }
 static long double T_xn(int i) { M(i); return vzero / vzero; }      static long double F_xn(int i) { M(i); return 0.0L; }
+/* operand SHAPES: the same mark and the same value, delivered through an lvalue expression whose evaluation has the
+   side effect (the mark) underneath: *TP(i), TS(i)->m, tv[MX(i, v)], TV(i).m */
+struct SH { int pad; int m; };
+static int one = 1, zero;                                          static int tv[2] = {0, 1};
+static struct SH sone = {0, 1}, szero;
+static int *TP(int i) { M(i); return &one; }                       static int *FP(int i) { M(i); return &zero; }
+static struct SH *TS(int i) { M(i); return &sone; }                static struct SH *FS(int i) { M(i); return &szero; }
+static int MX(int i, int v) { M(i); return v; }
+static struct SH TV(int i) { M(i); return sone; }                  static struct SH FV(int i) { M(i); return szero; }
 static void show(int id) { printf("C %d", id); for (int i = 0; i < nb; i++) printf(" %d", buf[i]); printf("\n"); }
 /* a case that spins without marks (only a broken compiler produces one) is cut off after 1 s of its
    own CPU time (ITIMER_VIRTUAL: machine load cannot trigger it) */
@@ -107,6 +116,8 @@ def value_leaves(P, i):
         return value_leaves(P, n["kids"][1])
     if k == "Cond":
         return value_leaves(P, n["kids"][1]) | value_leaves(P, n["kids"][2])
+    if k == "Elvis":
+        return value_leaves(P, n["kids"][0]) | value_leaves(P, n["kids"][1])
     return set()
 
 
@@ -115,11 +126,15 @@ def type_map(P, rot):
     ty = TYS[rot // 8]
     tm = {i + 1: ty[(i + 1 + rot) % 8] for i in range(len(P))}
     for i, n in enumerate(P):
-        if n["k"] == "Cond":
-            for j in value_leaves(P, n["kids"][1]) | value_leaves(P, n["kids"][2]):
+        if n["k"] in ("Cond", "Elvis"):
+            for j in value_leaves(P, n["kids"][1]) | value_leaves(P, n["kids"][2 if n["k"] == "Cond" else 0]):
                 if tm[j] == "p":
                     tm[j] = "l"
     return tm
+
+
+# operand shapes of the T / F leaves (CFlow.tla, constant Shapes): shape -> (true form, false form)
+SHAPE = {1: ("*TP(%d)", "*FP(%d)"), 2: ("TS(%d)->m", "FS(%d)->m"), 3: ("tv[MX(%d, 1)]", "tv[MX(%d, 0)]"), 4: ("TV(%d).m", "FV(%d).m")}
 
 
 def cnum(wd, k):
@@ -197,6 +212,8 @@ def rs(P, i, sw, tm=None, wd=None):
         return R(0) + ";"
     if k in ("T", "F") and tm and tm[i] in CMP:
         return CMP[tm[i]][0 if k == "T" else 1].replace("V(", "VL(%d, " % i).replace("U(", "VU(%d, " % i)
+    if k in ("T", "F") and n["a"] and not tm:
+        return SHAPE[n["a"]][0 if k == "T" else 1] % i
     if k in ("T", "F"):
         return "%s%s(%d)" % (k, "_" + tm[i] if tm else "", i)
     if k == "Not":
@@ -207,6 +224,8 @@ def rs(P, i, sw, tm=None, wd=None):
         return "(%s || %s)" % (R(0), R(1))
     if k == "Cond":
         return "(%s ? %s : %s)" % (R(0), R(1), R(2))
+    if k == "Elvis":
+        return "(%s ?: %s)" % (R(0), R(1))
     if k == "Comma":
         return "(%s, %s)" % (R(0), R(1))
     if k == "SE":
@@ -758,6 +777,9 @@ PROFILES = {
     "condjump": (["Mark", "SE", "T", "F", "While", "Switch", "Case", "WhileE", "SwitchE", "Break", "Continue"], [2], [0], [1], [1], 1, 6, 7, 5),
     "dojump":   (["Mark", "SE", "T", "F", "While", "Switch", "DoE", "Break", "Continue"], [2], [0], [1], [1], 1, 6, 7, 5),
     "forjump":  (["Mark", "SE", "T", "F", "While", "ForE", "Break", "Continue"], [2], [0], [1], [1], 1, 7, 8, 5),
+    # GNU `a ?: b` next to ?: ! && , and statement expressions; every T / F leaf in each of the five operand SHAPES
+    # (rvalue call, dereference, member through a pointer, subscript, member of a call result)
+    "elvis":    (["Expr", "T", "F", "Elvis", "Cond", "Not", "And", "Comma", "SE", "Mark"], [2], [0], [1], [1], 1, 5, 6, 4),
     "goto":   (["Mark", "Seq", "If", "CntLt", "Goto", "GotoStar", "Label", "While", "Break"], [2], [0], [1], [1], 2, 6, 7, 4),
 }
 
@@ -769,11 +791,14 @@ CTL_PROFILES = {
 }
 
 
+SHAPED = ("elvis",)           # profiles whose T / F leaves range over the operand shapes
+
+
 def flow_cfg(ctx, name, maxn, variant="ok", emit=True, forlate=True):
     ks, lc, lb, sv, cvs, nl, _, _, md = (PROFILES.get(name) or CTL_PROFILES[name])
     return ctx.cfg("flow", "CFlow_mc.cfg", name="CFlow-" + name, MaxN=maxn, MaxD=md, Kinds=kset(ks), LoopConds=iset(lc),
                    LoopB=iset(lb), SwVals=iset(sv), CaseVals=iset(cvs), NLab=nl, Variant='"%s"' % variant, Emit=emit,
-                   ForLate=forlate)
+                   ForLate=forlate, Shapes=iset(range(5) if name in SHAPED else [0]))
 
 
 def subtree(P, i):
@@ -788,7 +813,7 @@ def jump_in_for_clause(P):
                for n in P)
 
 
-FULL = ("condjump", "dojump", "forjump")     # small profiles whose programs are all replayed in the quick tier too
+FULL = ("condjump", "dojump", "forjump", "elvis")     # small profiles whose programs are all replayed in the quick tier too
 
 
 def flow_sig(c, exp, got):
@@ -801,6 +826,8 @@ def flow_sig(c, exp, got):
         return "truth:operand-types"
     if c.get("wide"):
         return "truth:wide-counter-comparison"
+    if "Elvis" in ks:
+        return "flow:elvis" + (":lvalue-operand" if any(n["k"] in ("T", "F") and n["a"] for n in c["p"]) else "")
     for tag, grp in (("goto", {"Goto", "GotoStar", "Label"}), ("switch", {"Switch"}), ("stmt-expr", {"SE"}),
                      ("loop", set(LOOPS)), ("expr", {"And", "Or", "Cond", "Comma", "Not"})):
         if ks & grp:
@@ -810,7 +837,7 @@ def flow_sig(c, exp, got):
 
 PAR = int(os.environ.get("VERIF_C03_PAR", "4"))      # concurrent TLC runs (2 workers each)
 
-CONTROLS = [("dojump", 6, "do-restore-late"), ("loopmini", 5, "norestore-cont"), ("loopmini", 5, "norestore-brk"), ("swmini", 6, "norestore-sw"),
+CONTROLS = [("elvis", 4, "elvis-reeval"), ("dojump", 6, "do-restore-late"), ("loopmini", 5, "norestore-cont"), ("loopmini", 5, "norestore-brk"), ("swmini", 6, "norestore-sw"),
             ("expr", 4, "and-or-mixup"), ("swmini", 6, "default-first"), ("swmini", 4, "range-open")]
 
 
@@ -830,12 +857,12 @@ def tlc_jobs(ctx):
         if dk:
             kw["Decls"] = dk
         jobs.append((("scope", "%d/%d%s" % (mdl, mo, "t" if dk else ""), out), "Scope", ctx.cfg("flow", "Scope_mc.cfg", **kw), dict(OUT=out), 2 if q else 4, "3g", True, "ok"))
-    for name in ("all", "goto", "switch", "loops", "swloop", "expr", "sejump", "condjump", "dojump", "forjump"):
+    for name in ("all", "goto", "switch", "loops", "swloop", "expr", "sejump", "condjump", "dojump", "forjump", "elvis"):
         prof = PROFILES[name]
         out = os.path.join(ctx.scratch, "flow-%s.ndjson" % name)
         jobs.append((("prof", name, out), "CFlow", flow_cfg(ctx, name, prof[6] if q else prof[7]), dict(OUT=out), 2, "3g", True, "ok"))
     # quick runs one control per mechanism, thorough all of them
-    for name, n, v in [c for c in CONTROLS if not q or c[2] in ("norestore-cont", "norestore-sw", "and-or-mixup", "do-restore-late")]:
+    for name, n, v in [c for c in CONTROLS if not q or c[2] in ("norestore-cont", "norestore-sw", "and-or-mixup", "do-restore-late", "elvis-reeval")]:
         jobs.append((("ctl", "CFlow:" + v, None), "CFlow", flow_cfg(ctx, name, n, variant=v, emit=False), None, 1, "1g", False, "reject"))
     for v in ("for-noleave", "def-completes-outer") if q else ("for-noleave", "typedef-own-map", "def-completes-outer", "fwd-finds-outer"):
         jobs.append((("ctl", "Scope:" + v, None), "Scope", ctx.cfg("flow", "Scope_mc.cfg", MaxDecl=2, Variant='"%s"' % v), None, 1, "1g", False, "reject"))
@@ -913,10 +940,14 @@ def run(ctx):
     # (the same closed domain in both tiers: expr programs <= 6 / 5 nodes, all-kinds programs <= 4 nodes)
     mixed = truth_typed_cases([c for c in progs["expr"] if len(c["p"]) <= 6] + [c for c in progs["all"] if len(c["p"]) <= 4])[0]
     rest = truth_typed_cases([c for c in progs["expr"] if len(c["p"]) <= 5] + [c for c in progs["all"] if len(c["p"]) <= 4])[1]
-    truth = mixed + rest
+    # `a ?: b` over the operand types (the temporary has the type of a): the elvis programs whose leaves are plain calls
+    elv = truth_typed_cases([c for c in progs["elvis"] if len(c["p"]) <= 5 and any(n["k"] == "Elvis" for n in c["p"])
+                             and not any(n["k"] in ("T", "F") and n["a"] for n in c["p"])])
+    elv = elv[0] + elv[1]
+    truth = mixed + rest + elv
     wide = wide_counter_cases([c for name in ("loops", "swloop", "goto") for c in progs[name] if len(c["p"]) <= 5])
     usel = (vt.subsample(mixed, ctx.seed, 6 if q else 1) + vt.subsample(rest, ctx.seed, 64 if q else 4) +
-            vt.subsample(wide, ctx.seed, 4 if q else 1))
+            vt.subsample(wide, ctx.seed, 4 if q else 1) + vt.subsample(elv, ctx.seed, 2 if q else 1))
     ctx.sample(dict(kind="truth", c_source=render_flow(0, usel[len(usel) // 2]), expected=expect_flow(0, usel[len(usel) // 2])))
     compare(ctx, tree, usel, render_flow, expect_flow, main_flow, "truth", flow_sig, first=2000000)
     ctx.phase("typed truth replay")
